@@ -433,6 +433,8 @@ def explore(ctx, extended=False, focus=None):
     # the same decorated call on other argument VALUES: its contribution to the constraint system must not change (c17_twin.py)
     from . import c17_twin
     c17_twin.twin_runs(ctx, ex, "C17", ctx.n(160, 3000) * (2 if extended else 1))
+    from . import c17_defaults
+    c17_defaults.default_parameter_cases(ctx, ex, extended)      # decorated functions that have default parameters
     return ex
 
 
@@ -442,6 +444,9 @@ def replay(ctx, payload):
     if "twin_group" in rp:
         from . import c17_twin
         return c17_twin.replay(payload)
+    if "defaults_run" in rp:
+        from . import c17_defaults
+        return c17_defaults.replay(ctx, payload)
     ex = Exploration()
     o = common.run_workers([f"N|r|{json.dumps(rp['run'])}"], script="worker_snark.py")[0]
     print(o[:3000])
